@@ -171,8 +171,57 @@ def check_kernel(ix, rep, modname, rule='R-ORD'):
                 rep.fail(rule, m.rel, 'intersection', slot, 'ordering %s: %s' % (desc, p), line)
         else:
             rep.ok(rule, m.rel, 'intersection', slot, 'branch %d: %s' % (first + 1, 'emit at max(p1,p2), ' if overlap else 'no emission, ') + 'advance ' + ','.join(sorted(pops)), line)
-    # finitary extension (offline): both operands are extended with [inf, last value]
+    check_operand_order(rep, m, f, slotp, rule)
     return len(ords), len(arms), used
+
+
+def check_operand_order(rep, m, f, slotp, rule='R-ORD'):
+    """every application of the slot function anywhere in the kernel (main loop, remainder loops, first sample) is
+    method(value of a list-1 sample, value of a list-2 sample)"""
+    params = [a.arg for a in f.node.args.args]
+    p1n, p2n, meth = params[0], params[1], params[2]
+    fam = {p1n: 1, p2n: 2}
+    changed = True
+    while changed:
+        changed = False
+        for st in ast.walk(f.node):
+            if isinstance(st, ast.Assign) and len(st.targets) == 1 and isinstance(st.targets[0], ast.Name):
+                v = st.value
+                src = None
+                if isinstance(v, ast.Subscript) and isinstance(v.value, ast.Name):
+                    src = v.value.id
+                elif isinstance(v, ast.Name):
+                    src = v.id
+                elif isinstance(v, ast.Call) and isinstance(v.func, ast.Name) and v.func.id == 'list' and v.args and isinstance(v.args[0], ast.Name):
+                    src = v.args[0].id
+                elif isinstance(v, ast.Call) and isinstance(v.func, ast.Attribute) and v.func.attr == 'copy' and isinstance(v.func.value, ast.Name):
+                    src = v.func.value.id
+                if src in fam:
+                    t = st.targets[0].id
+                    if fam.get(t) not in (None, fam[src]):
+                        fam[t] = 0      # mixed: a name used for both lists
+                    elif t not in fam:
+                        fam[t] = fam[src]
+                        changed = True
+    n = 0
+    bad = 0
+    for c in ast.walk(f.node):
+        if isinstance(c, ast.Call) and isinstance(c.func, ast.Name) and c.func.id == meth and len(c.args) == 2:
+            n += 1
+            fams = []
+            for a in c.args:
+                if isinstance(a, ast.Subscript) and isinstance(a.value, ast.Name) and isinstance(a.slice, ast.Constant) and a.slice.value == 1:
+                    fams.append(fam.get(a.value.id))
+                else:
+                    fams.append(None)
+            if fams != [1, 2]:
+                bad += 1
+                rep.fail(rule, m.rel, 'intersection', '%s:operand-order:%s' % (slotp, ast.unparse(c)[:70]),
+                         'the slot function is applied as %s: its arguments must be the value of a sample of the first list and of the second list, in that order '
+                         '(a non-commutative operator -- implies, -, /, pow, <= -- gets its operands swapped)' % ast.unparse(c), c.lineno)
+    if n and not bad:
+        rep.ok(rule, m.rel, 'intersection', '%s:operand-order' % slotp, '%d applications of the slot function, all (list-1 value, list-2 value)' % n, f.node.lineno)
+    return n
 
 
 def _describe(d):
